@@ -26,17 +26,14 @@ theorem N3_ABAQUS__C_TAU_JAUMANN (hc : c * c = 2) (h2 : (2:K) ≠ 0)
     upper (lamAb F (M3.ofMandel c [s 0, s 1, s 2, s 3, s 4, s 5]) L (M3.ofMandel c (act (Gen.N3_ABAQUS__C_TAU_JAUMANN_r c c3 fn D (tensv F0) (tensv F) s) (M3.mandel3 c (symm L)))))
       = upper (lamJ F (M3.ofMandel c [s 0, s 1, s 2, s 3, s 4, s 5]) L (M3.ofMandel c (act (rowsOf D i6 i6) (M3.mandel3 c (symm L))))) := by
   have hc0 : c ≠ 0 := c_ne_zero hc h2
-  have hd0 : Gen.N3_ABAQUS__C_TAU_JAUMANN_den0 c c3 fn D (tensv F0) (tensv F) s ≠ 0 := by
-    have : Gen.N3_ABAQUS__C_TAU_JAUMANN_den0 c c3 fn D (tensv F0) (tensv F) s = F.det := by
-      obtain ⟨f00,f01,f02,f10,f11,f12,f20,f21,f22⟩ := F
-      c23_unfold <;> (try ring1)
-    rw [this]; exact hJ
-  obtain ⟨f00,f01,f02,f10,f11,f12,f20,f21,f22⟩ := F
-  obtain ⟨l00,l01,l02,l10,l11,l12,l20,l21,l22⟩ := L
-  (try c23_unfold at hd0)
+  have hden0 : Gen.N3_ABAQUS__C_TAU_JAUMANN_den0 c c3 fn D (tensv F0) (tensv F) s = F.det := by
+    c23_unfold <;> (try ring1)
+  have hd0 : Gen.N3_ABAQUS__C_TAU_JAUMANN_den0 c c3 fn D (tensv F0) (tensv F) s ≠ 0 := by rw [hden0]; exact hJ
+  c23_unfold at hden0 hd0
   c23_unfold
+  (try rw [← hden0])
   generalize_ne hd0 => e0 he0
   (try (repeat' apply And.intro))
-  all_goals (first | rfl | (field_simp <;> (try simp only [← he0]) <;> c23_ring hc))
+  all_goals (first | rfl | (field_simp <;> first | (c23_ring hc) | ((try simp only [← he0]) <;> c23_field hc)))
 
 end TfelVerif.C23.PropsN3_ABAQUS__C_TAU_JAUMANN
